@@ -637,6 +637,20 @@ int main(int argc, char **argv) {
             g_inlib = 1; RETCODE rc = adfUndelEntry(v, (SECTNUM)I(3), (SECTNUM)I(4)); g_inlib = 0;
             printf("= rc=%d\n", rc);
         }
+        else if (IS("getdel")) {          /* getdel d p : adfGetDelEnt + adfFreeDelList */
+            NEEDVOL((int)I(1),(int)I(2));
+            struct AdfVolume *v = getvol((int)I(1),(int)I(2));
+            g_inlib = 1; struct AdfList *l = adfGetDelEnt(v); g_inlib = 0;
+            int n = 0; for (struct AdfList *c = l; c; c = c->next) n++;
+            printf("= n=%d\n", n);
+            for (struct AdfList *c = l; c; c = c->next) {
+                struct GenBlock *b = (struct GenBlock *)c->content;
+                printf("D %d %d %d ", b->secType, (int)b->sect, (int)b->parent);
+                if (b->name) { for (const unsigned char *q = (const unsigned char *)b->name; *q; q++) printf("%02x", *q); } else printf("-");
+                printf("\n");
+            }
+            g_inlib = 1; adfFreeDelList(l); g_inlib = 0;
+        }
         else if (IS("dumpimg")) {          /* dumpimg d path */
             int d = (int)I(1);
             FILE *out = fopen(a[2], "wb");
